@@ -4,9 +4,14 @@
    - pthread_create eventually succeeds (the DVX_CREATE step of the model is enabled whenever a free thread id exists);
    - the monitor timer fires (C01_root_monitor_grows_pool talks about one pass: the schedule RootQ.mon_schedule);
    - /proc reports a thread blocked in a system call as not runnable (the bucket (true, 0) of RootQ.mon_pass);
-   - fewer than 2^63 signals banked in the pool semaphore, fewer than 2^31 pending requests (no successor otherwise). *)
+   - the counters do not reach the limit of their C type (fewer than 2^63 signals banked in the pool semaphore, fewer than
+     2^31 pending requests): this is NOT proved; the model has no successor at these limits (guards in RootQ.effect), and the
+     theorems that need a successor carry the premise explicitly (`bounded` in C01_root_progress, sval s < RQ_LONG_MAX in
+     C01_root_monitor_grows_pool / C01_root_monitor_repairs);
+   - the floors passed to a poke are in [-2^29, 0] (RootQ.floor_ok: 0 from the queue code; target - 255 and
+     max(-target, target - 255) from the monitor, not positive as the pool size is at most 255). *)
 From Coq Require Import ZArith Bool List.
-From Verif Require Import Word Conc Gen_consts Gen_rootq RootQ RootQ_proofs RootQ_pool_proofs RootQ_wake_proofs.
+From Verif Require Import Word Conc Gen_consts Gen_rootq RootQ RootQ_proofs RootQ_pool_proofs RootQ_wake_proofs RootQ_live_proofs.
 Import ListNotations.
 Local Open Scope Z_scope.
 
@@ -46,17 +51,85 @@ Theorem C01_root_fifo_per_pusher : forall oc p0 s p, reach oc p0 s ->
 Proof. exact fifo_per_pusher. Qed.
 Print Assumptions C01_root_fifo_per_pusher.
 
-(* no lost wake-up: with a pushed-unclaimed item, (a/b) some thread is at a program point that carries the duty to look or
-   to wake (RootQ_wake_proofs.tok), or (c) the pool semaphore holds a signal and a worker is at / on its way to the
-   semaphore and will get it, or (d) signals are banked and every thread is outside the pool protocol: the pool threads
-   are inside work items (then C01_root_monitor_grows_pool applies) *)
-Theorem C01_root_no_lost_wakeup : forall oc p0 s, valid_init p0 -> reach oc p0 s -> unclaimed s <> [] ->
+(* the exact case split for a state with a pushed-unclaimed item (this replaces the former C01_root_no_lost_wakeup, whose
+   last alternative also held in the lost-wake-up state).  Either a NAMED thread carries the duty:
+   (1) a thread at a program point that obliges it to look at the list or to wake a worker (RootQ_wake_proofs.tok);
+   (2) more signals than receivers are pending in the kernel semaphore / in flight and a thread is at the semaphore;
+   (3) a signal is banked in dsema_value and a worker is on its way to the semaphore (it will take it);
+   (4) a thread is in the rest of a push / of a poke, or just before invoking an item (it has an enabled step:
+       C01_root_progress; the split applies again to the state it leaves);
+   or nobody is in the pool protocol and the state has one of exactly two shapes:
+   (5) STALL: the pool has a free slot, nothing is pending, the signals are banked (this IS the lost wake-up:
+       C01_root_stall_needs_monitor; only not-overcommit queues: C01_root_overcommit_no_stall);
+   (6) ALL-BUSY: every slot of the pool is a thread inside a work item.
+   (5) and (6) are repaired by the monitor only: C01_root_monitor_repairs. *)
+Theorem C01_root_unclaimed_item_cases : forall oc p0 s, valid_init p0 -> reach oc p0 s -> unclaimed s <> [] ->
   (exists t, tok (pcs s t) = true) \/
   (1 <= surplus s /\ exists t, sem_taker s t) \/
   (1 <= sval s /\ exists t, to_sem (pcs s t) = true) \/
-  (1 <= sval s /\ forall t, parked (pcs s t) = true).
-Proof. exact no_lost_wakeup. Qed.
-Print Assumptions C01_root_no_lost_wakeup.
+  (exists t, finishing (pcs s t) = true) \/
+  (oc = false /\ quiescent s /\ 1 <= pool s /\ pend s = 0 /\ ksem s = 0 /\ 1 <= sval s /\ pool0 s - pool s = cnt in_item s) \/
+  (quiescent s /\ pool s <= 0 /\ pend s = 0 /\ ksem s = 0 /\ 1 <= sval s /\ pool0 s - pool s = cnt in_item s).
+Proof. exact unclaimed_item_cases. Qed.
+Print Assumptions C01_root_unclaimed_item_cases.
+
+(* overcommit root queues (dgq_pending is incremented unconditionally, no cmpxchg that can be refused): with an unclaimed
+   item and a free pool slot some thread is active in the pool protocol (duty to look / poke past its signal / worker at
+   the semaphore): the STALL shape is unreachable.  The ALL-BUSY shape (255 threads, all inside items) has no rescue on
+   an overcommit queue other than an item returning. *)
+Theorem C01_root_overcommit_no_stall : forall p0 s, valid_init p0 -> reach true p0 s -> unclaimed s <> [] -> 1 <= pool s ->
+  exists t, act (pcs s t) = true.
+Proof. exact overcommit_active. Qed.
+Print Assumptions C01_root_overcommit_no_stall.
+
+(* the repair of STALL and ALL-BUSY by ONE pass of the monitor, linked to the state: b is the bucket the pass computes from
+   s (probe of dq_items_tail, registered workers that /proc reports runnable), d its decision for that bucket.
+   (a) d is `decision` of b (RootQ_live_proofs): poke with floor target - 255 if no worker is runnable, with floor
+       max(-target, target - 255) if fewer than target are and the global count is below 2 * target, else nothing
+       (the machine is saturated: the item waits for a running item to return);
+   (b) all registered workers blocked: poke with the hard floor;
+   (c) if the floor of the decided poke is below the pool size, the poke (run alone, pthread_create succeeding) creates
+       worker u and u's first look CLAIMS the oldest unclaimed item;
+   (d) the floor is below the pool size always in STALL, and for the hard floor whenever fewer than 255 pool threads exist *)
+Theorem C01_root_monitor_repairs : forall p0 s m u runnable pre rest g,
+  valid_init p0 -> reach false p0 s -> quiescent s -> unclaimed s <> [] -> sval s < RQ_LONG_MAX -> pcs s u = PNone -> u <> m ->
+  let b := bucket_of runnable s in
+  let d := nth_error (mon_pass p0 (WORKQ_OVERSUBSCRIBE_FACTOR * p0) g (pre ++ b :: rest)) (length pre) in
+  (fst b = true /\ exists g', d = Some (decision p0 (WORKQ_OVERSUBSCRIBE_FACTOR * p0) g' b)) /\
+  ((forall t, In t (registered_workers s) -> runnable t = false) -> d = Some (Some (p0 - WORKQ_MAX_TRACKED_TIDS))) /\
+  (forall f, d = Some (Some f) -> f < pool s ->
+     exists s', grun false s (mon_schedule s m f u ++ claim_schedule u (hd 0 (unclaimed s))) = Some s' /\ reach false p0 s' /\
+       hpop s' = hpop s ++ [(hd 0 (unclaimed s), u)] /\ unclaimed s' = tl (unclaimed s) /\ pool s' = pool s - 1 /\ pend s' = 0) /\
+  (forall f, d = Some (Some f) -> 1 <= pool s -> f < pool s) /\
+  (p0 - pool s < WORKQ_MAX_TRACKED_TIDS -> p0 - WORKQ_MAX_TRACKED_TIDS < pool s).
+Proof. exact monitor_repairs. Qed.
+Print Assumptions C01_root_monitor_repairs.
+
+(* progress: in a reachable state whose counters are not at the limits (bounded), every thread inside the queue code has an
+   enabled step, except a caller of push that owns no free object (client obligation) and a worker blocked in sem_wait
+   with no signal in the kernel semaphore (parked: cases (2)-(6) above say who will signal) *)
+Theorem C01_root_progress : forall oc p0 s t, valid_init p0 -> reach oc p0 s -> bounded s ->
+  match pcs s t with
+  | PNone | PClient _ => True
+  | PPushCall _ => has_free_item s -> enabled oc s t
+  | PSemBlocked => 0 < ksem s -> enabled oc s t
+  | _ => enabled oc s t
+  end.
+Proof. exact progress. Qed.
+Print Assumptions C01_root_progress.
+
+(* the two spin waits (self-loops of the model) end through a named thread that exists and can step:
+   - _dispatch_wait_for_enqueuer(&head->do_next) while the link is 0: the pusher u at its link store; its step stores the link;
+   - __DISPATCH_ROOT_QUEUE_CONTENDED_WAIT__ while dq_items_head = MEDIATOR: a worker at its cmpxchg MEDIATOR -> NULL, or the
+     holder of the claimed item before its store to dq_items_head *)
+Theorem C01_root_spin_waits :
+  (forall oc p0 s t h f, valid_init p0 -> reach oc p0 s -> pcs s t = PDrainWaitNext h f -> nxt s h = 0 ->
+     exists u c b, u <> t /\ pcs s u = PPushLink c b h /\ enabled oc s u /\
+       forall e s', gstep oc s u e = Some s' -> nxt s' h = b /\ b <> 0 /\ pcs s' t = PDrainWaitNext h f) /\
+  (forall oc p0 s, valid_init p0 -> reach oc p0 s -> bounded s -> head s = MED ->
+     exists u, enabled oc s u /\ (pcs s u = PDrainCasNull \/ (holder s = Some u /\ is_castail (pcs s u) = false))).
+Proof. exact spin_waits. Qed.
+Print Assumptions C01_root_spin_waits.
 
 (* the monitor: (1) a bucket whose queue is not empty and whose registered workers are all reported not runnable is poked
    with floor = target - WORKQ_MAX_TRACKED_TIDS; (2) from a reachable state with an unclaimed item where nothing of the pool
@@ -102,10 +175,12 @@ Theorem C01_root_thread_automaton :
 Proof. exact thread_automaton. Qed.
 Print Assumptions C01_root_thread_automaton.
 
-(* non-vacuity: the hypotheses of C01_root_no_lost_wakeup and of C01_root_monitor_grows_pool (2) hold in stall_state
-   (reached by RootQ.stall_schedule: two pushes, a worker that ran an item, slept, timed out and exited) *)
+(* non-vacuity: the hypotheses of C01_root_unclaimed_item_cases, C01_root_monitor_repairs (with an empty set of registered
+   workers), C01_root_monitor_grows_pool (2) and C01_root_progress hold in stall_state (reached by RootQ.stall_schedule: two
+   pushes, a worker that ran an item, slept, timed out and exited): the STALL shape *)
 Example C01_root_nonvacuous :
   valid_init 1 /\ reach false 1 stall_state /\ unclaimed stall_state <> [] /\ quiescent stall_state /\
-  sval stall_state < RQ_LONG_MAX /\ floor_ok (1 - WORKQ_MAX_TRACKED_TIDS) = true /\ 1 - WORKQ_MAX_TRACKED_TIDS < pool stall_state /\
-  pcs stall_state 4 = PNone /\ hpop stall_state = [(16, 2)] /\ map fst (hpush stall_state) = [16; 32].
-Proof. exact nonvacuous. Qed.
+  sval stall_state < RQ_LONG_MAX /\ bounded stall_state /\ pcs stall_state 4 = PNone /\
+  registered_workers stall_state = [] /\ 1 <= pool stall_state /\ pool0 stall_state - pool stall_state = 0 /\
+  hpop stall_state = [(16, 2)] /\ map fst (hpush stall_state) = [16; 32].
+Proof. exact nonvacuous_live. Qed.
